@@ -209,3 +209,4 @@ Example C07_nonvacuous :
                    [("--x", "4")] (Some "beta") [("--mom", "5")]
      = Ok (V "Par" [("x", 4%Z)] (VCons "cmd" (V "Beta" [("mom", 5%Z)] VNil) VNil)).
 Proof. vm_compute. repeat split; reflexivity. Qed.
+Print Assumptions C07_nonvacuous.
